@@ -7,16 +7,32 @@ META = dict(
           "ragged individual locations/parents, populations, migrations, multi-character/empty/non-ASCII allele "
           "states, known and unknown mutation times, edges in non-canonical parent order) x precision "
           "(needed, larger, default, insufficient) x file layouts (columns permuted, unknown columns inserted, "
-          "each optional column omitted, optional files omitted). dump_text output is checked cell by cell by an "
-          "independent tab reader; load_text and every parse_* result is compared row by row with the model after "
-          "the documented sort. A case is distinct by the sha1 of its row tuples and non-trivial when it has "
-          "edges and at least one of sites/individuals/migrations."),
+          "each optional column omitted, optional files omitted, a column with an empty or blank cell forced to the "
+          "first / last position) x call forms (dump_text: keyword, positional, one table per call, complementary "
+          "subsets, real files, write-only objects, the `python -m tskit <table>` wrappers, a pickled copy; load_text: "
+          "keyword, positional, defaults, real files, byte streams, rewound objects; parse_*: keyword, positional, "
+          "defaults, source=, real files, the same table written twice). Case families by k mod 23: rt (above, with "
+          "boundary decorations in fixed shares: times/coordinates scaled by non-powers of two, arbitrary doubles "
+          "incl. inf/nan in the str()-formatted columns, metadata of 47-300 bytes with all byte values, individual "
+          "flags 2^31 / 2^32-1, whole-column patterns), lowprec, tiny (zero nodes, one node, no edges, identical "
+          "rows, whole ragged columns empty / empty only in the first or last row, no edges in the last part of the "
+          "sequence), big (> 256 rows and ids per table, > 256 mutations at one site, 300 parents, entries > 64 KiB). "
+          "dump_text output is checked cell by cell by an independent tab reader; load_text and every parse_* "
+          "result is compared row by row with the model after the documented sort. A case is distinct by the sha1 "
+          "of its row tuples and non-trivial when it has edges and at least one of sites/individuals/migrations."),
     REQUIRED=["roundtrip", "layout:load_text", "dump-cells:nodes", "dump-cells:mutations", "parse:nodes",
               "parse:edges", "parse:sites", "parse:mutations", "parse:individuals", "parse:populations",
-              "parse:migrations", "lowprec", "population-backfill"],
+              "parse:migrations", "lowprec", "population-backfill",
+              # audit pass: alternative entry points / argument forms, boundary and extreme inputs
+              "dump-form:pos", "dump-form:single", "dump-form:cli", "load-form:pos", "load-form:mixed-defaults",
+              "load-form:files", "parse-form:defaults", "parse-form:pos", "parse:same-table-twice",
+              "family:tiny", "family:big", "roundtrip:repr-doubles", "roundtrip:nondyadic-times",
+              "roundtrip:wide-metadata", "roundtrip:inferred-length-below-L"],
     ASSUMPTIONS=ASSUME_COMMON + [
-        "strict tab-delimited mode and Base64 metadata only (the statement's scope); strict=False is not exercised",
+        "strict tab-delimited mode and Base64 metadata only (the statement's scope); strict=False is exercised only "
+        "on files without empty or blank cells, `encoding` only with ASCII-compatible codecs (Base64 text)",
         "Python's float formatting '%.{p}f' is correctly rounded (used to decide which precision is sufficient)",
+        "individuals list their parents before themselves (TableCollection.sort may otherwise renumber them: C11's matter)",
     ],
     BUDGET={"quick": 40.0, "thorough": 780.0},
 )
